@@ -21,6 +21,13 @@
 (*            written to it; the connection returns to THIS HostClient's pool *)
 (*   Respond  final response, or a redirect: DoRedirects sends the next URL   *)
 (*            through the same entry (Route again).                          *)
+(* The request handed to the entry is either built for the URL ("direct") or  *)
+(* DERIVED from another request with the same URL: a Request.CopyTo copy of a  *)
+(* setter-built request (before / after its URI() was looked at), a request    *)
+(* received by a server over a connection of that scheme and forwarded as it   *)
+(* is ("recv") or as a CopyTo copy, without or with a request-line rewrite     *)
+(* before the copy (and URI() touched or not after the rewrite).  A derived    *)
+(* request denotes the same (scheme, host): Route treats every via alike.      *)
 (* Connections are tagged (addr, tls, owner pool); the log records for every *)
 (* request which connection it was written to, or that it was refused.       *)
 (***************************************************************************)
@@ -30,7 +37,8 @@ CONSTANTS
   HostSeq,    \* host names, e.g. <<"h1.test", "h2.test">> (the fixed HostClients talk to the first / second)
   Entries,    \* subset of {"client", "hcPlain", "hcTLS", "lbMixed", "lbTLS"}
   MaxReqs,    \* requests per scenario (written or refused)
-  MaxScript   \* longest redirect script
+  MaxScript,  \* longest redirect script
+  Vias        \* how the request object handed to the entry was obtained (see below)
 
 Hosts == { HostSeq[i] : i \in 1..Len(HostSeq) }
 Schemes == {"http", "https"}
@@ -78,12 +86,12 @@ Scripts == UNION { [1..n -> Targets] : n \in 1..MaxScript }
 Op ==
   /\ pc = "idle" /\ Len(log) < MaxReqs
   /\ \E t \in Targets :
-       \/ /\ ops' = Append(ops, [kind |-> "do", scheme |-> t.scheme, host |-> t.host, script |-> << >>])
+       \/ /\ \E v \in Vias : ops' = Append(ops, [kind |-> "do", scheme |-> t.scheme, host |-> t.host, script |-> << >>, via |-> v])
           /\ req' = t /\ script' = << >>
        \/ /\ entry \notin {"lbMixed", "lbTLS"}
           /\ \E s \in Scripts :
                /\ Len(log) + 1 + Len(s) <= MaxReqs
-               /\ ops' = Append(ops, [kind |-> "redir", scheme |-> t.scheme, host |-> t.host, script |-> s])
+               /\ \E v \in Vias : ops' = Append(ops, [kind |-> "redir", scheme |-> t.scheme, host |-> t.host, script |-> s, via |-> v])
                /\ req' = t /\ script' = s
   /\ pc' = "route"
   /\ UNCHANGED <<entry, hcs, pool, conns, sel, log>>
@@ -168,4 +176,8 @@ Terminal == pc = "idle" /\ Len(log) = MaxReqs
 TwoHosts == <<"h1.test", "h2.test">>
 ThreeHosts == <<"h1.test", "h2.test", "h3.test">>
 AllEntries == {"client", "hcPlain", "hcTLS", "lbMixed", "lbTLS"}
+DirectEntries == {"client", "hcPlain", "hcTLS"}
+DirectOnly == {"direct"}
+AllVias == {"direct", "copy-built", "copy-built-touched", "recv", "copy-recv", "copy-recv-rewrite", "copy-recv-rewrite-touched"}
+DerivedVias == AllVias \ {"direct"}
 =============================================================================
